@@ -234,8 +234,14 @@ pub fn record(seed: u64, n: usize, mode: &str, out_path: &str) {
                     engine.condition.set_sampling_frequency(*rng.pick(&[16000usize, 22050, 44100, 96000]));
                 }
                 let labels: Vec<jlabel::Label> = lines.iter().filter_map(|l| l.parse().ok()).collect();
-                let m1 = Models::new(&labels, &engine.voices, engine.condition.get_interporation_weight());
-                let f1 = DurationEstimator::new(m1.duration(), m1.nstate()).create(1.0).iter().sum::<usize>();
+                // F1 label by label (each label's durations depend on that label alone)
+                let f1: usize = labels
+                    .iter()
+                    .map(|lab| {
+                        let m1 = Models::new(std::slice::from_ref(lab), &engine.voices, engine.condition.get_interporation_weight());
+                        DurationEstimator::new(m1.duration(), m1.nstate()).create(1.0).iter().sum::<usize>()
+                    })
+                    .sum();
                 let nst = lines.len() * engine.voices.global_metadata().num_states;
                 for k in 0..5 {
                     // very slow rates stretch single (pause) states to many hundreds of frames; the first run is at speed 1
@@ -311,6 +317,10 @@ pub fn record(seed: u64, n: usize, mode: &str, out_path: &str) {
             // alignment through the string form
             let mut engine = base_engine.clone();
             engine.condition.set_phoneme_alignment_flag(true);
+            if rng.chance(0.4) {
+                // with alignment the speaking rate has no say: time stamps are in 100 ns units whatever the speed
+                engine.condition.set_speed(*rng.pick(&[0.5, 0.8, 1.25, 2.0, 3.0]));
+            }
             if rng.chance(0.3) {
                 engine.condition.set_fperiod(*rng.pick(&[80usize, 120, 240, 480, 256, 100]));
             }
